@@ -18,26 +18,27 @@ ASYNC = ("async", "agen", "acm")
 _COUNTER = [0]
 
 
-def node_source(i: int, nd: Dict[str, Any]) -> str:
+def node_source(i: Any, nd: Dict[str, Any]) -> str:
+    ident = repr(i)
     params = [f"d{j}=TaskiqDepends(n{j}, use_cache={bool(uc)})" for j, uc in nd["deps"]]
     if nd.get("ctx"):
         params.append("ctx: Context = TaskiqDepends()")
     st_ = nd["style"]
     is_async = st_ in ASYNC
-    pre = f"    LOG('open', {i})\n"
+    pre = f"    LOG('open', {ident})\n"
     if is_async and nd.get("sleep"):
         pre += f"    await asyncio.sleep({nd['sleep']})\n"
     if nd.get("ctx"):
-        pre += f"    LOG('echo', {i}, ctx.message.task_id, ctx.message.args[0] if ctx.message.args else None, ctx.message.labels.get('who'))\n"
+        pre += f"    LOG('echo', {ident}, ctx.message.task_id, ctx.message.args[0] if ctx.message.args else None, ctx.message.labels.get('who'))\n"
     if nd.get("fail") == "before":
         pre += f"    raise RuntimeError('dep{i} failed before yield')\n"
     head = f"{'async ' if is_async else ''}def n{i}({', '.join(params)}):\n"
     if st_ in ("sync", "async"):
-        return head + pre + f"    return {i}"
+        return head + pre + f"    return {ident}"
     deco = {"gen": "", "agen": "", "cm": "@contextlib.contextmanager\n", "acm": "@contextlib.asynccontextmanager\n"}[st_]
-    body = (f"    try:\n        yield {i}\n    except BaseException as e:\n        LOG('saw', {i}, type(e).__name__)\n"
+    body = (f"    try:\n        yield {ident}\n    except BaseException as e:\n        LOG('saw', {ident}, type(e).__name__)\n"
             + ("        pass\n" if nd.get("swallow") else "        raise\n")
-            + f"    finally:\n        LOG('close', {i})\n")
+            + f"    finally:\n        LOG('close', {ident})\n")
     if nd.get("fail") == "after":
         body += f"        raise RuntimeError('dep{i} failed in teardown')\n"
     return deco + head + pre + body
@@ -47,6 +48,9 @@ def program_source(nodes: List[Dict[str, Any]], task_deps: List[Any], task: Dict
     L = ["import asyncio, contextlib", "from taskiq import TaskiqDepends, Context"]
     for i, nd in enumerate(nodes):
         L.append(node_source(i, nd))
+    for ri, rep in enumerate(task.get("replacements") or []):
+        # replacement dependencies (broker.dependency_overrides): same recipe, named r<k>, logged as node "r<k>"
+        L.append(node_source(f"r{ri}", rep["node"]).replace(f"def nr{ri}(", f"def r{ri}("))
     params = ["me=None", "slp=0"] + [f"d{j}=TaskiqDepends(n{j}, use_cache={bool(uc)})" for j, uc in task_deps] + ["ctx: Context = TaskiqDepends()"]
     body = ("    LOG('enter', 'task', ctx.message.task_id, ctx.message.args[0] if ctx.message.args else None, ctx.message.labels.get('who'))\n"
             "    try:\n"
@@ -59,7 +63,11 @@ def program_source(nodes: List[Dict[str, Any]], task_deps: List[Any], task: Dict
         body += "        raise KeyboardInterrupt()\n"
     else:
         body += "        return me\n"
-    body += "    finally:\n        LOG('exit', 'task')\n"
+    body += "    finally:\n"
+    if task.get("cleanup"):
+        # asynchronous clean-up: after a cancellation (timeout) the function needs more loop iterations to finish
+        body += f"        await asyncio.sleep({task['cleanup']})\n"
+    body += "        LOG('exit', 'task')\n"
     L.append(f"async def task({', '.join(params)}):\n" + body)
     return "\n\n".join(L)
 
